@@ -9,9 +9,9 @@ use std::num::NonZeroUsize;
 #[cfg(not(jubako_verif_loom))]
 use std::sync::{Arc, Mutex, OnceLock};
 #[cfg(jubako_verif_loom)]
-use crate::bases::verif_sync::Mutex;
+use crate::bases::verif_sync::{Mutex, OnceLock};
 #[cfg(jubako_verif_loom)]
-use std::sync::{Arc, OnceLock};
+use std::sync::Arc;
 use uuid::Uuid;
 
 use super::ByteRegion;
